@@ -34,6 +34,7 @@ FeedShort == <<Pt(P1), Ba(H2, <<B1>>)>>
 FeedBad == <<Pt(P1), Pt(PBad), Ba(H1, <<B1, BBad>>), Pt(P3)>>
 FeedPoints == <<Pt(P1), Pt(P2), Pt(P3)>>
 FeedTwo == <<Pt(P1), Pt(P2)>>
+FeedOne == <<Pt(P2)>>
 FeedUnbuf == <<Bg(H2, 1), Bp(B1), En>>
 
 Snap == [kind |-> "snapshot", data |-> NIL]
@@ -43,10 +44,10 @@ CallsS == <<Snap>>
 CallsInit == <<[kind |-> "init", data |-> NIL], Snap>>
 CallsNone == <<>>
 
-AllFaults == {"endNoBegin", "beginNeg", "unknown", "errorResp", "unsolSnapshot", "unsolRestore", "unsolKeepalive", "close"}
+AllFaults == {"endNoBegin", "beginNeg", "pointGap", "unknown", "readerr", "errorResp", "unsolSnapshot", "unsolRestore", "unsolKeepalive", "close"}
 CrashFaults == {"endNoBegin", "beginNeg", "unknown"}
 NoFaults == {}
-CloseOnly == {"close"}
+CloseOnly == {"close", "die"}
 
 \* layout law on its own: split into typed maps and merged again = identity (all field maps over 2 names x 4 types x 2 values)
 Vals == {"0", "1"}
